@@ -90,7 +90,8 @@ func StringToAmount(s string) (massutil.Amount, error) {
 	if err != nil {
 		return massutil.ZeroAmount(), err
 	}
-	if i < 0 || uint64(i) > consensus.MaxMass {
+	// strconv.ParseInt accepts a leading sign; an amount is an unsigned decimal numeral
+	if i < 0 || strings.ContainsAny(sInt, "+-") || uint64(i) > consensus.MaxMass {
 		return massutil.ZeroAmount(), fmt.Errorf("integral part is out of range")
 	}
 
@@ -98,7 +99,7 @@ func StringToAmount(s string) (massutil.Amount, error) {
 	if err != nil {
 		return massutil.ZeroAmount(), err
 	}
-	if f < 0 {
+	if f < 0 || strings.ContainsAny(sFrac, "+-") {
 		return massutil.ZeroAmount(), fmt.Errorf("illegal number format")
 	}
 
